@@ -101,9 +101,11 @@ fn encode_field(output: &mut String, key: &str, value: &str, key_value_delimiter
 }
 
 fn encode_string(output: &mut String, str: &str) {
-    let needs_quoting = str
-        .chars()
-        .any(|c| c.is_whitespace() || c == '"' || c == '=');
+    // A leading `'` is quoted as well: `parse_key_value` reads `'a'` as the quoted string `a`.
+    let needs_quoting = str.starts_with('\'')
+        || str
+            .chars()
+            .any(|c| c.is_whitespace() || c == '"' || c == '=');
 
     if needs_quoting {
         output.write_char('"').unwrap();
